@@ -238,8 +238,8 @@ class OffsetOperandStub:
                         return Symbol(token.ctx_start, token.ctx_end, token.representation, is_necessarily_label=True)
                 elif isinstance(token, (Symbol, InstructionPointer)):
                     fixup_active = False
-                else:
-                    assert False  # TODO: really?
+                # Any other token (a decimal or prefixed number, a character literal, a
+                # bracketed expression) cannot be a local label and is left as is
                 return token
             fixup_label(operand)
 
